@@ -46,13 +46,14 @@ struct M { tag: Option<u32>, opt: bool, dup_name: bool }
 
 pub fn run() -> i32 {
     let mut rep = Report::new("rules", "F1: every tag / optional / repeated-name assignment over <= 3 members in 6 containers; F2: every stream placement over <= 3 members; F3: enumerator values at the bounds of every underlying type, enum modifiers, tag bounds; F4: dictionary key types to depth 2; F5: every redeclaration of inherited operations over <= 3 operations, one and two levels -- verdict and codes vs an independent reference checker");
+    let deep = std::env::var("VERIF_BOUNDED_DEEP").is_ok();
     // ---- F1 ---------------------------------------------------------------------------------------------------
     let shapes: Vec<M> = { let mut v = vec![]; for tag in [None, Some(1), Some(2)] { for opt in [false, true] { for dup_name in [false, true] { v.push(M { tag, opt, dup_name }); } } } v };
     let containers = ["struct", "compact struct", "enumerator", "compact enumerator", "parameters", "return tuple"];
     for n in 0..=3usize {
         let total = shapes.len().pow(n as u32);
         for c in 0..total {
-            if n == 3 && c % 5 != 0 { continue; }
+            if n == 3 && c % 5 != 0 && !deep { continue; }
             let mut ms = vec![];
             let mut cc = c;
             for _ in 0..n { ms.push(shapes[cc % shapes.len()]); cc /= shapes.len(); }
